@@ -68,11 +68,18 @@ impl WorkerTree {
                 }
             } else {
                 let input = normalize_path(options.input());
+                // the current directory normalizes to `.`, but a normalized source never
+                // starts with a `.` component: its prefix is the empty path
+                let input_prefix = if input == Path::new(".") {
+                    Path::new("")
+                } else {
+                    input.as_path()
+                };
 
                 for source in resources.collect_work(&input) {
                     let source = normalize_path(source);
 
-                    let relative_path = source.strip_prefix(&input).map_err(|err| {
+                    let relative_path = source.strip_prefix(input_prefix).map_err(|err| {
                         DarkluaError::custom(format!(
                             "unable to remove path prefix `{}` from `{}`: {}",
                             input.display(),
